@@ -53,6 +53,9 @@ func (e *HTTPErrorExpr) Validate() *eval.ValidationErrors {
 	}
 
 	// validate headers
+	if ee == nil {
+		return verr // the missing error has been reported above
+	}
 	if e.Response.Headers != nil && !e.Response.Headers.IsEmpty() {
 		verr.Merge(e.Response.Headers.Validate("HTTP error response headers", e.Response))
 		switch {
